@@ -36,6 +36,10 @@ CHECKS = {
    "Seeded histories of 4-16 connections against ONE long-lived real server on a scratch world (cache files and ZIP index caches accumulate, module lazies stay warm, the simulated clock jumps across the cache lifetime), drawn from a grammar of valid requests for every object kind in every protocol and ~90 malformed shapes, with seeded segmentation, missing half-close and missing body bytes (answered after the simulated receive timeout). Per connection: answered and closed, nothing written after close, a protocol object was selected, no socketserver.handle_error, no internal-error log record, response syntactically valid for the answering protocol class (independent validators incl. Gopher+ length = body bytes, no body after Gemini/Spartan error statuses, HEAD without body), closed within timeout+1 simulated seconds, and byte-equal (directory timestamps aside) to the reference server's answer to the same request alone on a pristine world.",
    "Trusts the simulator, the validators in simkit/proto.py and the reference server. TLS handshakes are always well-formed (stub). One known finding (D17: cache files are retrievable).",
    "deterministic simulation: request histories on one stateful server with simulated clock, receive timeouts and network segmentation; per-connection invariants + history-independence against a reference run"),
+ "C02": ("exploration", "3.2",
+   "Every connection runs on a live simulated socket against the real server classes: all 256 first-byte values are swept with and without a TLS context, as one segment and with the first byte alone; seeded histories of 8-24 connections per server configuration (shipped protocol list read from the repository's conf, seeded permutations and sub-lists) mix canonical request shapes and near-misses of every protocol, random byte lines and HTTP header-block variants, each repeated under different segmentation/delay plans. Observed from outside: whether the TLS context wrapped the socket, the request line the handler read after the sniff, the class returned by getProtocol. Oracles: TLS iff 0x16, sniff consumes nothing, determinism across segmentation and history, secure flag = TLS-ness, totality with the shipped list, first documented-shape match wins (small independent shape model).",
+   "Trusts the simulator and the 40-line shape model (only applied to canonical shapes and clear near-misses). TLS is a stub.",
+   "deterministic simulation: live simulated sockets with seeded segmentation/delays and MSG_PEEK, exhaustive first-byte sweep, connection histories, observation of wrap_socket and getProtocol from outside"),
 }
 
 NA = {
@@ -52,7 +56,6 @@ NA = {
 }
 PENDING = {
  "C01": "claimed in DESIGN.md; check not built yet in this revision",
- "C02": "claimed in DESIGN.md; check not built yet in this revision",
 }
 
 def main():
